@@ -381,6 +381,15 @@ func runC11(s *sim) {
 			dropSet := map[string]int{}
 			for _, r := range dropped {
 				s.probe("drop_reported")
+				if r.size > limit {
+					s.probe("drop_oversized")
+					// only an individual element that cannot fit by itself may be dropped for size
+					if len(r.canon) > 1 {
+						s.violate("C11", "drop-only-unsplittable", "C11/dropped-splittable", "a fragment of %d bytes with %d elements was dropped as oversized for %s (limit %d, original %d bytes, shape %s): its elements fit one by one", r.size, len(r.canon), shortPeer(o.p), limit, o.size, o.shape)
+					}
+				} else if !r.qfull {
+					s.violate("C11", "drop-only-unsplittable", "C11/dropped-without-reason", "an RPC of %d bytes (limit %d) was dropped for %s although its outbound queue was not full", r.size, limit, shortPeer(o.p))
+				}
 				for _, e := range r.canon {
 					dropSet[e]++
 				}
